@@ -141,6 +141,8 @@ func c07FamilyD() []c07version {
 		mk("D2-chain-of-five", "func use(words []string) []string {\n\treturn deriveUnique(deriveSort(deriveKeys(deriveSet(deriveFmap(up, words)))))\n}\n"),
 		mk("D3-chain-of-two", "func use(words []string) map[string]struct{} {\n\treturn deriveSet(deriveFmap(up, words))\n}\n"),
 		mk("D4-chain-of-six", "func use(words []string) bool {\n\treturn deriveContains(deriveUnique(deriveSort(deriveKeys(deriveSet(deriveFmap(up, words))))), \"a!\")\n}\n"),
+		mk("D6-chain-of-three-without-the-innermost-stage", "func use(words []string) []string {\n\treturn deriveSort(deriveKeys(deriveSet(words)))\n}\n"),
+		mk("D7-chain-of-two-outer-stages", "func use(m map[string]struct{}) []string {\n\treturn deriveSort(deriveKeys(m))\n}\n"),
 		mk("D5-no-derive-calls", "func use(words []string) int {\n\treturn len(words)\n}\n"),
 	}
 }
@@ -179,8 +181,8 @@ func checkC07(tier string) {
 		{"A", famA, func(i int) bool { return tier == "thorough" || i == 0 || i == 6 }, tier == "thorough", nil},
 		{"B", famB, func(i int) bool { return tier == "thorough" || i == 0 }, tier == "thorough", nil},
 		{"D", c07FamilyD(), func(i int) bool { return tier == "thorough" || i == 0 }, tier == "thorough", nil},
-		{"E", c07FamilyE("deriveEqual", "deriveEqual", "deriveEqual", "*A", "*B", "*C"), func(i int) bool { return tier == "thorough" }, true, []string{"-autoname"}},
-		{"F", c07FamilyE("deriveEqualA", "deriveEqualB", "deriveEqualC", "*A", "*A", "*A"), func(i int) bool { return tier == "thorough" }, true, []string{"-dedup"}},
+		{"E", c07FamilyE("deriveEqual", "deriveEqual", "deriveEqual", "*A", "*B", "*C"), func(i int) bool { return tier == "thorough" || i == 0 }, true, []string{"-autoname"}},
+		{"F", c07FamilyE("deriveEqualA", "deriveEqualB", "deriveEqualC", "*A", "*A", "*A"), func(i int) bool { return tier == "thorough" || i == 0 }, true, []string{"-dedup"}},
 	}
 	totalNodes, totalEdges := 0, 0
 	outcomes := map[string]int{}
@@ -368,7 +370,7 @@ func checkC07(tier string) {
 	if tier == "thorough" {
 		rep.Cov["bound"] = "every byte prefix of every output x every version of the same family (all pairs)"
 	} else {
-		rep.Cov["bound"] = "whole-file and absent nodes x every version (all pairs); every byte prefix of the outputs of A1, A7 and B1 x {same, previous, next version}; family C (two calls of one plugin, one removed): every byte prefix x all versions; family D (chains of 2, 4, 5 and 6 nested derive calls): whole-file and absent nodes x all pairs, every byte prefix of D1 x {same, next}; families E (-autoname: conflicting calls added / removed) and F (-dedup: duplicate names added / removed): whole-file and absent nodes x all pairs [every byte prefix]"
+		rep.Cov["bound"] = "whole-file and absent nodes x every version (all pairs); every byte prefix of the outputs of A1, A7 and B1 x {same, previous, next version}; family C (two calls of one plugin, one removed): every byte prefix x all versions; family D (chains of 2, 4, 5 and 6 nested derive calls): whole-file and absent nodes x all pairs, every byte prefix of D1 x {same, next}; families E (-autoname: conflicting calls added / removed) and F (-dedup: duplicate names added / removed): whole-file and absent nodes x all pairs, every byte prefix of the first version x all versions [every byte prefix of every version]"
 	}
 	rep.Cov["exhaustive"] = true
 	rep.Assume = append(rep.Assume, "a crash is modelled as 'file holds the first k bytes' for every k; torn sector writes are not modelled")
